@@ -67,6 +67,7 @@ def near_misses(s: str, rnd: random.Random, budget: int) -> list[str]:
 
 def record(run: Run, thorough: bool) -> list[dict[str, Any]]:
     from btclib import b32, b58, base58, bech32
+    from btclib.script import script_pub_key as script_pub_key_mod
     from btclib.script.script_pub_key import ScriptPubKey
 
     rnd = random.Random(run.seed)
@@ -95,6 +96,15 @@ def record(run: Run, thorough: bool) -> list[dict[str, Any]]:
                 continue
             r2 = _call(lambda: base58.decode(m))
             evs.append({"op": "b58check_decode", "s": hx(m), "out": out_of(r2, lambda v: {"v": bytes(v).hex()})})
+    # ---- a 20-octet hash written as an address, and payloads of every other size around it (a sha256 handed to p2sh, an x-only key, nothing) ----
+    for net, sn in NETS.items():
+        for typ in ("p2pkh", "p2sh"):
+            for ln in (0, 1, 19, 20, 21, 32, 33):
+                payload = rnd.randbytes(ln)
+                res = _call(lambda: b58.address_from_h160(typ, payload, net))
+                evs.append({"op": "b58_address", "type": typ, "net": sn, "payload": payload.hex(), "out": out_of(res, lambda v: {"v": hx(v)})})
+                res = _call(lambda: b58.address_from_h160(typ, payload.hex(), net))
+                evs.append({"op": "b58_address", "type": typ, "net": sn, "payload": payload.hex(), "out": out_of(res, lambda v: {"v": hx(v)})})
     # ---- segwit addresses: every version x length x network ----
     lengths = list(range(2, 41)) if thorough else [2, 3, 19, 20, 21, 31, 32, 33, 39, 40]
     combos = [(v, n) for v in range(0, 17) for n in lengths]
@@ -217,6 +227,27 @@ def record(run: Run, thorough: bool) -> list[dict[str, Any]]:
             r5 = _call(lambda: ScriptPubKey.p2pkh(keyobj, asked, "mainnet").address)
             evs.append({"op": "keyaddr", "fn": "p2pkh", "kind": "sec", "prefix": "", "sec": sec_of(qk, True if want is None else want).hex(), "net": "mainnet", "out": out_of(r5, lambda v: {"v": hx(v)}),
                         "what": f"ScriptPubKey.p2pkh of a {kname} asked as compressed={asked}"})
+    # ---- a witness v0 key hash is over a compressed key only (BIP143): the same spellings through every p2wpkh entry point; a key that says "uncompressed" is refused ----
+    for kname, keyobj, says in (("point", Pk, None), ("prepared point", PreparedPoint(Pk, secp256k1), None), ("sec compressed", sec_of(qk, True), True), ("sec uncompressed", sec_of(qk, False), False),
+                                ("sec uncompressed as hex", sec_of(qk, False).hex(), False), ("wif compressed", b58.wif_from_prv_key(qk, "mainnet", True), True),
+                                ("wif uncompressed", b58.wif_from_prv_key(qk, "mainnet", False), False)):
+        for fn, f3 in (("p2wpkh", lambda k: b32.p2wpkh(k, "mainnet")), ("p2wpkh_p2sh", lambda k: b58.p2wpkh_p2sh(k, "mainnet")), ("p2wpkh", lambda k: ScriptPubKey.p2wpkh(k).address)):
+            r7 = _call(lambda: f3(keyobj))
+            evs.append({"op": "keyaddr", "fn": fn, "kind": "sec", "prefix": "", "sec": sec_of(qk, says is not False).hex(), "net": "mainnet", "out": out_of(r7, lambda v: {"v": hx(v)}),
+                        "what": f"{fn} of a {kname}"})
+    # ---- the keys of a p2ms read back as addresses: each key's own p2pkh address, compressed or not as the script holds it ----
+    for forms in ((True, True), (True, False), (False, False), (False, True, True)):
+        for net in ("mainnet", "testnet"):
+            keys_ = [sec_of(qk + 5 + j, comp) for j, comp in enumerate(forms)]
+            spk_ = _call(lambda: ScriptPubKey.p2ms(1, keys_, net, lexicographic_sorting=False))
+            if spk_[0] != "ok":
+                evs.append({"op": "multikey", "keys": [{"kind": "sec", "prefix": ""} for _ in keys_], "declared": net, "out": {"refused": True}, "what": f"p2ms of sec keys {forms}"})
+                continue
+            for how, f4 in (("property", lambda: spk_[1].addresses), ("function", lambda: script_pub_key_mod.addresses(spk_[1].script, net))):
+                r8 = _call(f4)
+                for j, k_ in enumerate(keys_):
+                    got = ("ok", r8[1][j]) if r8[0] == "ok" and isinstance(r8[1], list) and len(r8[1]) == len(keys_) else (("refused", None) if r8[0] != "ok" else ("ok", ""))
+                    evs.append({"op": "keyaddr", "fn": "p2pkh", "kind": "sec", "prefix": "", "sec": k_.hex(), "net": net, "out": out_of(got, lambda v: {"v": hx(v)}), "what": f"addresses ({how}) of a p2ms with keys {forms}, key {j}"})
     # ---- several keys in one script (p2ms): keys that name a network must name the same type, and the declared one when there is one ----
     w_main, w_test = b58.wif_from_prv_key(qk, "mainnet", True), b58.wif_from_prv_key(qk + 1, "testnet", True)
     x_main = bip32.xpub_from_xprv(bip32.rootxprv_from_seed(bytes(32), NETWORKS["mainnet"].bip32_prv))
